@@ -43,6 +43,26 @@ Theorem blocks_once_per_match : forall {rx : Type} t fl cfg glob (regexes : list
   iterM (fun b : stanza * qmatch => exec_stanza t fl cfg glob regexes find call fuel (fst b) (snd b)) (blocks sts ms) s p.
 Proof. intros rx. exact (@strict_blocks_once rx). Qed.
 
+(* lazy mode: although matches are found through ONE query merged from all stanzas, each reported match (i, m)
+   runs the block of stanza i exactly once, in the reported order, before the evaluation phase; a pattern
+   index outside the file is the only other possibility (a panic, never a silently skipped match) *)
+Theorem lazy_blocks_once_per_match : forall {rx : Type} t fl cfg glob (regexes : list rx) find call fuel ms,
+  lexec_file t fl cfg glob regexes find call fuel ms =
+  (iterM (fun pm : N * qmatch =>
+            match nth_error (f_stanzas fl) (N.to_nat (fst pm)) with
+            | Some st => lexec_stanza t fl cfg glob regexes find call fuel st (snd pm)
+            | None => panic P_stanza_index
+            end) ms ;;;
+   evaluate_phase t fl call (fuel + default_eval_fuel)).
+Proof. reflexivity. Qed.
+(* a lazy capture expression looks only at its own match (file-query index): stanzas that reuse the name with
+   another quantifier or position cannot influence it *)
+Theorem lazy_stanzas_independent : forall t fl glob call fuel (le le' : llenv) name q fidx sidx l s p,
+  nodes_for_capture (ll_match le) fidx = nodes_for_capture (ll_match le') fidx ->
+  leval t fl glob call (S fuel) le (ECapture name q fidx sidx l) s p =
+  leval t fl glob call (S fuel) le' (ECapture name q fidx sidx l) s p.
+Proof. intros t fl glob call fuel le le' name q fidx sidx l s p H. cbn [leval]. rewrite H. reflexivity. Qed.
+
 Example c03_nonvacuous : from_nodes [3; 5] QStar = Ok (VList [VSyn 3; VSyn 5]) /\ from_nodes [] QOpt = Ok VNull /\
   nodes_for_capture [(0, [7]); (2, [3]); (2, [5])] 2 = [3; 5].
 Proof. repeat split. Qed.
